@@ -537,6 +537,17 @@ func runCheck(env *run.Env, c *check) int {
 		logf("(E) %s ok: %d distinct states in %.1fs", m.mod, res.Distinct, res.WallS)
 	}
 
+	// (P) proofs: unbounded safety of small abstract specifications, by TLAPS
+	for _, pm := range c.proofs {
+		t0 := time.Now()
+		nob, err := env.TLAPM(pm, 10*time.Minute)
+		if err != nil {
+			die("(P) %v", err)
+		}
+		modelNotes = append(modelNotes, fmt.Sprintf("%s: %d proof obligations checked by tlapm (holds for every number of goroutines and buffers)", pm, nob))
+		logf("(P) %s: %d obligations proved in %.1fs", pm, nob, time.Since(t0).Seconds())
+	}
+
 	// (V) programs -> executor -> trace validation
 	g := gen.New(env.Seed*1000003+int64(len(c.id)), thor)
 	progs := c.gen(g, thor)
